@@ -50,9 +50,12 @@ def check(repo: Repo, rep: Report) -> None:
     rep.rule("H6-fair-producer", "synchronous producers emit one element per scheduled step, yielding to the trampoline in between", floor=4)
     rep.rule("H3-early-terminal", "early terminators reach a terminal downstream call from their element / trigger path", floor=8)
     sub = repo.fn(OBS, "Observable.subscribe")
+    # role, not name: the deferred step is the closure of subscribe() that calls self._subscribe_core
+    steps = [g.name for g in sub.children if g.is_func and any(isinstance(x.node, ast.Call) and dotted(x.node.func) == "self._subscribe_core" for x in sites(g))]
+    step = steps[0] if len(steps) == 1 else "?subscribe-step"
     sched = [s for s in sites(sub) if isinstance(s.node, ast.Call) and isinstance(s.node.func, ast.Attribute) and s.node.func.attr == "schedule"
-             and u(s.node.args[0]) == "set_disposable"]
-    direct = [s for s in sites(sub) if isinstance(s.node, ast.Call) and isinstance(s.node.func, ast.Name) and s.node.func.id == "set_disposable"]
+             and s.node.args and u(s.node.args[0]) == step]
+    direct = [s for s in sites(sub) if isinstance(s.node, ast.Call) and isinstance(s.node.func, ast.Name) and s.node.func.id == step]
     ok = len(sched) == 1 and len(direct) == 1 and any(isinstance(e, ast.Call) and e.func.attr == "schedule_required" and p for e, p in sched[0].ctx.guards
                                                        if isinstance(e.func, ast.Attribute)) \
         and any(isinstance(e, ast.Call) and isinstance(e.func, ast.Attribute) and e.func.attr == "schedule_required" and not p for e, p in direct[0].ctx.guards)
